@@ -140,10 +140,17 @@ Section Tree.
   Definition val_at (t : tree) (p : path) : option V :=
     match t p with Some n => n_val n | None => None end.
 
-  (* validateURL *)
-  Definition validate (ps : list part) : bool :=
-    forallb (fun p => negb (tok_eqb (snd p) [])
-                      && (negb (is_wild (snd p)) || part_eqb p (last ps (false, [])))) ps.
+  (* validateURL: no empty part; a wildcard only at the last index (the code
+     compares indices since the fix "a wildcard is rejected everywhere but in
+     the last URL part"; before it compared the part with the last part by value) *)
+  Fixpoint validate (ps : list part) : bool :=
+    match ps with
+    | [] => true
+    | p :: rest =>
+        negb (tok_eqb (snd p) [])
+        && (negb (is_wild (snd p)) || match rest with [] => true | _ :: _ => false end)
+        && validate rest
+    end.
 
   (* the loop of insertWithConvergenceIndication (declaredURL = true,
      assumedPathParamsEnabled = false): returns the tree (mutated also when a
